@@ -78,7 +78,7 @@ theorem rdfa_emits_wf (E : Env) (hE : EnvOK E) (cfg : Cfg) (doc : Node) (h : Roo
 def exEnv : Env :=
   { parseBase := fun v => some v, xmlBase := fun _ v => some v, resolve := fun b v => some (b ++ v), lower := id,
     timeMaps := [fun v => if v = asc "2020-01-02" then some (v, asc "http://www.w3.org/2001/XMLSchema#date") else none],
-    xmlRender := fun _ => some [] }
+    xmlRender := fun _ => some [], htmlRender := fun _ => some [] }
 
 example : EnvOK exEnv := by
   intro f hf v lex dt hv
